@@ -107,3 +107,78 @@ pub open spec fn family_off(t: RRType, ip_type: IpType) -> bool { (t == RRType::
 pub open spec fn stays_on_disable(r: DnsRecordIntf, idx: u32, ip_type: IpType) -> bool {
     payload_intf(r.record.payload()) is Some && !(payload_intf(r.record.payload())->Some_0 == idx && family_off(r.record.rec().entry.ty, ip_type))
 }
+
+// ---- evict_expired_addr ----
+// `HashMap::retain(f)` / `Vec::retain(f)` visit every element once, in order, and keep those f answers true for.  Where f has
+// side effects the call is written out as that loop: the collection is emptied into a sequence (these two shims) and the kept
+// elements are put back.
+#[verifier::external_body]
+pub fn vx_map_take<V>(m: &mut HashMap<String, V>) -> (r: Vec<(String, V)>)
+    ensures
+        final(m)@ == Map::<String, V>::empty(),
+        forall|i: int| 0 <= i < r@.len() ==> old(m)@.contains_key((#[trigger] r@[i]).0) && old(m)@[r@[i].0] == r@[i].1,
+        forall|k: String| old(m)@.contains_key(k) ==> exists|i: int| 0 <= i < r@.len() && (#[trigger] r@[i]).0 == k,
+        forall|i: int, j: int| 0 <= i < j < r@.len() ==> (#[trigger] r@[i]).0 != (#[trigger] r@[j]).0,
+{ unimplemented!() }
+#[verifier::external_body]
+pub fn vx_vec_take<T>(v: &mut Vec<T>) -> (r: Vec<T>)
+    ensures r@ == old(v)@, final(v)@ == Seq::<T>::empty(),
+{ unimplemented!() }
+pub open spec fn live_at(now: u64) -> spec_fn(DnsRecordIntf) -> bool { |r: DnsRecordIntf| !(now >= r.record.rec().expires) }
+pub open spec fn expired_addr(r: DnsRecordIntf, now: u64) -> bool { now >= r.record.rec().expires && payload_intf(r.record.payload()) is Some }
+// position (e, i) lies in the part of the map walked so far: the first ne entries, and the first ni records of entry ne
+pub open spec fn walked(ents: Seq<(String, Vec<DnsRecordIntf>)>, e: int, i: int, ne: int, ni: int) -> bool {
+    0 <= e < ents.len() && 0 <= i < ents[e].1@.len() && (e < ne || (e == ne && i < ni))
+}
+pub open spec fn evicted_from(k: String, a: ScopedIp, ents: Seq<(String, Vec<DnsRecordIntf>)>, ne: int, ni: int, now: u64) -> bool {
+    exists|e: int, i: int| walked(ents, e, i, ne, ni) && expired_addr(#[trigger] ents[e].1@[i], now) && k@ == rec_name(ents[e].1@[i].record.rec()) && a == payload_scoped(ents[e].1@[i].record.payload())
+}
+pub open spec fn evicted_in(k: String, a: ScopedIp, m: Map<String, Vec<DnsRecordIntf>>, now: u64) -> bool {
+    exists|h: String, i: int| m.contains_key(h) && 0 <= i < m[h]@.len() && expired_addr(#[trigger] m[h]@[i], now) && k@ == rec_name(m[h]@[i].record.rec()) && a == payload_scoped(m[h]@[i].record.payload())
+}
+pub proof fn lemma_filter_step<T>(s: Seq<T>, i: int, p: spec_fn(T) -> bool)
+    requires 0 <= i < s.len(),
+    ensures s.take(i + 1).filter(p) == (if p(s[i]) { s.take(i).filter(p).push(s[i]) } else { s.take(i).filter(p) }),
+{
+    let t = s.take(i + 1);
+    assert(t.drop_last() == s.take(i));
+    assert(t.last() == s[i]);
+    reveal_with_fuel(Seq::filter, 2);
+}
+pub proof fn lemma_filter_all<T>(s: Seq<T>, p: spec_fn(T) -> bool)
+    ensures
+        forall|i: int| 0 <= i < s.filter(p).len() ==> p(#[trigger] s.filter(p)[i]) && s.contains(s.filter(p)[i]),
+        forall|i: int| 0 <= i < s.len() && p(s[i]) ==> s.filter(p).contains(#[trigger] s[i]),
+        s.filter(p).len() <= s.len(),
+    decreases s.len(),
+{
+    reveal_with_fuel(Seq::filter, 2);
+    if s.len() > 0 {
+        let d = s.drop_last();
+        lemma_filter_all(d, p);
+        let f = s.filter(p);
+        let fd = d.filter(p);
+        assert(f == (if p(s.last()) { fd.push(s.last()) } else { fd }));
+        assert forall|i: int| 0 <= i < f.len() implies p(#[trigger] f[i]) && s.contains(f[i]) by {
+            if i < fd.len() {
+                assert(f[i] == fd[i]);
+                assert(d.contains(fd[i]));
+                let j = choose|j: int| 0 <= j < d.len() && d[j] == fd[i];
+                assert(s[j] == d[j]);
+            } else {
+                assert(f[i] == s.last());
+                assert(s[s.len() - 1] == s.last());
+            }
+        }
+        assert forall|i: int| 0 <= i < s.len() && p(s[i]) implies f.contains(#[trigger] s[i]) by {
+            if i < d.len() {
+                assert(d[i] == s[i]);
+                assert(fd.contains(d[i]));
+                let k = choose|k: int| 0 <= k < fd.len() && fd[k] == d[i];
+                assert(f[k] == fd[k]);
+            } else {
+                assert(f[f.len() - 1] == s[i]);
+            }
+        }
+    }
+}
